@@ -110,14 +110,20 @@ class R(object):
     def i64(self):
         return int.from_bytes(self.take(8), 'big', signed=True)
 
+    def _text(self, raw, what):
+        try:
+            return raw.decode('utf-8')
+        except UnicodeDecodeError as e:
+            raise FrameError("%s is not valid UTF-8: %s" % (what, e))
+
     def string(self):
-        return self.take(self.u16()).decode('utf-8')
+        return self._text(self.take(self.u16()), "[string]")
 
     def long_string(self):
         n = self.i32()
         if n < 0:
             raise FrameError("negative long string length")
-        return self.take(n).decode('utf-8')
+        return self._text(self.take(n), "[long string]")
 
     def short_bytes(self):
         return self.take(self.u16())
